@@ -103,8 +103,10 @@ static Result execute(const Toks &t) {
         for (long i = 0; i < A.n; ++i) {
             bool found = false; Q v;
             for (auto j = A.ptr[i]; j < A.ptr[i+1]; ++j) if (A.col[j] == i) { found = true; v = A.val[j]; break; }
-            if (!found) { l << "U"; continue; }          // uninitialised by design (numa_vector(n,false)): not printed
-            Q e = inv ? (v == 0 ? Q(1) : Q(1) / v) : v;
+            // a row without stored diagonal entry: the value of a zero diagonal (0, identity when inverted); before fix
+            // baae926 the entry was never written (heap garbage / POISON)
+            Q e = !found ? (inv ? Q(1) : Q(0)) : inv ? (v == 0 ? Q(1) : Q(1) / v) : v;
+            if ((*d)[i].poison) { ok = false; }
             if ((*d)[i].v != e.v) ok = false;
             l << (*d)[i];
         }
@@ -199,6 +201,19 @@ static void generate(Rng &rng, const Opts &o, std::vector<std::string> &lines) {
         long n = rng.range(1, 12); Mat A = rng.coin() ? gen_spd(rng, std::max<long>(n, 2)) : gen_convdiff(rng, std::max<long>(n, 2));
         if (rng.coin(1, 4)) { Q s3(3); for (auto &v : A.val) v = v * s3; }
         lines.push_back((Line() << "k_power" << rng.coin() << rng.range(1, 6) << A).get());
+    }
+    // power method on every pattern up to 3x3 (nilpotent / zero matrices make A*b0 vanish exactly: as found the estimate was NaN,
+    // fix 714f66b), unscaled; and on random strictly triangular matrices
+    for (long n = 1; n <= 3; ++n) for (unsigned long bits = 0; bits < (1ul << (n * n)); ++bits) {
+        if (n == 3 && !o.thorough() && bits % 7 != 0) continue;
+        Mat A = pattern_mat(n, n, bits, (int)(bits % 5));
+        lines.push_back((Line() << "k_power" << 0L << (long)(2 + bits % 4) << A).get());
+    }
+    for (long k = 0; k < (o.thorough() ? 100 : 20); ++k) {
+        long n = rng.range(2, 8); std::vector<std::vector<std::pair<long,Q>>> rows(n);
+        bool lower = rng.coin();
+        for (long i = 0; i < n; ++i) for (long j = 0; j < n; ++j) if ((lower ? j < i : j > i) && rng.coin(1, 2)) rows[i].push_back({j, rng.integer(3)});
+        lines.push_back((Line() << "k_power" << 0L << rng.range(2, 9) << from_rows(n, n, rows)).get());
     }
     // exhaustive small patterns: every pair of 2x2 patterns (quick), every pair of 3x3 patterns sampled / 2x3 * 3x2 (thorough)
     for (unsigned a = 0; a < 16; ++a) for (unsigned b = 0; b < 16; ++b) {
